@@ -751,6 +751,9 @@ func (e *verifEnv) WatchSignerReady() func() (int, int) {
 	}
 }
 
+// verifPublishSentinel publishes a marker event through the daemon's notifier.
+func verifPublishSentinel(name string) { eventNotifier.PublishAuthEvent("verif-sentinel", name) }
+
 // CA certificates exactly as main() adds them to the TLS client pool.
 func (e *verifEnv) ClientCAPool() *x509.CertPool {
 	pool := x509.NewCertPool()
